@@ -41,11 +41,15 @@ def run(tier):
                       % (h['tos'], h['op'], h['faults'], h['leaked']), file='lltdResponder/lltdBlock.c', function='parseFrame',
                       sample={'cell': '%s x %s' % (h['tos'], h['op']), 'failed_allocations': h['faults'], 'live_at_exit': h['retained']} if h['faults'] and len(rep.samples) < 10 else None)
     # fallback sizes
+    # (the MTU-sized response buffers are recognised as what is handed to send_frame in the Discover / Query / QueryLargeTlv
+    #  cells - wherever the allocation itself sits)
     for h in res['frame.fallback']['heap']:
+        if not (h['region'].endswith(('.discover', '.query', '.qlt'))):
+            continue
         for site, size in h['malloc_sizes']:
-            if site.startswith(('heap:answerHello', 'heap:parseQuery#', 'heap:sendLargeTlvResponse')):
-                rep.check(size == '[1500,1500]', 'R18.c', 'fallback|size|%s' % site, 'with the MTU unavailable, %s allocates %s bytes instead of the 1500-byte fallback' % (site, size),
-                          file='lltdResponder/lltdBlock.c', function=site.split(':')[1].split('#')[0])
+            if site in h.get('sent_objs', ()):
+                rep.check(size == '[1500,1500]', 'R18.c', 'fallback|size|%s' % h['region'], 'with the MTU unavailable, the response buffer of cell %s (%s) is allocated with %s bytes instead of the '
+                          '1500-byte fallback' % (h['region'], site, size), file='lltdResponder/lltdBlock.c', function=site.split(':')[1].split('#')[0])
     for c in res['ctors']['ctors']:
         if c['failed_allocs']:
             ok = (c['returns_null'] or c['returned'].startswith('&heap:')) and not c['leaked']
